@@ -18,6 +18,7 @@ type LagLogHandler struct {
 	mu    sync.Mutex
 	r     *rand.Rand
 	p     int // percentage of calls that lag
+	LongP int // percentage of calls that lag for 20..80 ms (a sink that stalls); 0 = never
 	Calls atomic.Int64
 	Lags  atomic.Int64
 }
@@ -35,7 +36,14 @@ func (h *LagLogHandler) Handle(context.Context, slog.Record) error {
 	lag := h.r.Intn(100) < h.p
 	kind := h.r.Intn(3)
 	n := 1 + h.r.Intn(20)
+	long := h.LongP > 0 && h.r.Intn(100) < h.LongP
+	longMs := 20 + h.r.Intn(61)
 	h.mu.Unlock()
+	if long {
+		h.Lags.Add(1)
+		time.Sleep(time.Duration(longMs) * time.Millisecond)
+		return nil
+	}
 	if !lag {
 		return nil
 	}
